@@ -247,6 +247,11 @@ def r09_flow(ck: Check) -> None:
                 bad += 1
                 ck.violated("R09.4", "handle_block_received: adopted block not written to the store",
                             "the block is part of the served state at a normal exit but was not saved and flushed", where, list(tr))
+            if kind == "return" and s[SERVED] and s[BULK] and s[STORED] == "no":
+                bad += 1
+                ck.violated("R09.4", "handle_block_received: a bulk-download block that is adopted is buffered for the store",
+                            "the block enters the served state without being handed to the block store: its next validated descendant is flushed "
+                            "without its parent, the flush fails on the foreign key and nothing is persisted from then on", where, list(tr))
             if s[SERVED] and not s[VALID] and not s[BULK]:
                 bad += 1
                 ck.violated("R09.3", "handle_block_received: exit with an unvalidated block in the served state", "", where, list(tr))
@@ -336,6 +341,15 @@ def r09_8(ck: Check) -> None:
         ck.ok("R09.8", "broadcast_block = broadcast_message(DataMessage(DATA_BLOCK, block)), once", "", calls[0].loc)
     else:
         ck.violated("R09.8", "broadcast_block = broadcast_message(DataMessage(DATA_BLOCK, block)), once", "%s" % [e.describe()[:120] for e in calls], s.fi.loc)
+    s = ck.summ(NM + "broadcast_transaction", 0)
+    sp = Spec(s, ("self", "transaction"))
+    calls = [e for e in s.events if e.kind == "call" and NM + "broadcast_message" in e.targets]
+    construct = "broadcast_transaction = broadcast_message(DataMessage(DATA_TRANSACTION, transaction)), once, whatever the own pool says"
+    if len(calls) == 1 and calls[0].term[2] == (sp.term("DataMessage(DATA_TRANSACTION, transaction)"),) and not residual(calls[0], ()) and not calls[0].loops:
+        ck.ok("R09.8", construct, "", calls[0].loc)
+    else:
+        ck.violated("R09.8", construct, "%s — the relay handler has admitted the transaction before it calls this function: a second admission "
+                    "test here fails for every relayed transaction, which then never travels further than one hop" % [e.describe()[:160] for e in calls], s.fi.loc)
     s = ck.summ(NM + "broadcast_message", 0)
     spl = Spec(s, ("self", "m"), forall=[("p", "self.get_active_peers()")])
     sends = [e for e in s.events if e.kind == "call" and e.parts and e.parts[0] == ("a", spl.term("p"), "send_message")]
